@@ -6,10 +6,10 @@
                   [12] reverse [13,n] *= [14] reorder()
            L [I 1; L init; L ops]     list proxy (initial values appended through the proxy)
              ops: [0,v] append [1,vs] extend [2,i,v] insert [3,i|None] pop [4,v] remove [5,i,v] p[i]=v
-                  [6,sl,vs] p[sl]=vs [7,i] del p[i] [8,sl] del p[sl] [9] clear [10,vs] += [11,n] *= [12] reverse [13] sort
+                  [6,sl,vs] p[sl]=vs [7,i] del p[i] [8,sl] del p[sl] [9] clear [10,vs] += [11,n] *= [12] reverse [13] sort [14,vs] obj.proxy = vs
            L [I 2; L init; L ops]     set proxy; ops as the set ops of C38 with arguments [0,items] set | [1,items] list
            L [I 3; L pairs; L ops]    dict proxy; ops as the dict ops of C38 (0 setitem 1 delitem 2 clear 3 pop 4 popitem
-                                      5 setdefault 6 update)
+                                      5 setdefault 6 update); [20, x] obj.proxy = x for both
    output  one entry per operation
            ordering list: L [I rc; L [ L [I e; pos] ... ]]       pos = I p | L []
            list proxy:    L [I rc; L [ L [I oid; I value] ... ]]  oid = creation number of the intermediary
@@ -90,6 +90,7 @@ Definition as_plop (t : tree) : option plop :=
   | L [I 11; I n] => Some (PIMul n)
   | L [I 12] => Some PReverse
   | L [I 13] => Some PSort
+  | L [I 14; vs] => option_map PAssign (as_items vs)
   | _ => None
   end.
 
@@ -129,21 +130,35 @@ Definition as_psop (t : tree) : option sop :=
   | L [I 12; a] => option_map SIxor (as_psarg a)
   | _ => None
   end.
-Fixpoint run_ps (ops : list sop) (s : px) : list tree * px :=
+(* set / dict proxies: the operations of C38 plus whole-collection assignment [20, ...] *)
+Inductive sop2 := S1 (o : sop) | SAssign (vs : list Z).
+Inductive dop2 := D1 (o : dop) | DAssign (m : pydict).
+Definition as_sop2 (t : tree) : option sop2 :=
+  match t with
+  | L [I 20; vs] => option_map (fun l => SAssign (dedup l)) (as_items vs)
+  | _ => option_map S1 (as_psop t)
+  end.
+Definition as_dop2 (t : tree) : option dop2 :=
+  match t with
+  | L [I 20; m] => option_map DAssign (as_dict m)
+  | _ => option_map D1 (as_dop t)
+  end.
+
+Fixpoint run_ps (ops : list sop2) (s : px) : list tree * px :=
   match ops with
   | [] => ([], s)
   | o :: r =>
-      let '(x, s') := ps_step ord_id s o in
+      let '(x, s') := match o with S1 o' => ps_step ord_id s o' | SAssign vs => (POk, ps_assign s vs) end in
       let '(out, sf) := run_ps r s' in
       (L [I (rc_of_pres x); of_list of_Z (zsorted (to_list s')); of_nat (nxt s')] :: out, sf)
   end.
 
 Definition show_pd (s : px) : tree := of_list (fun o => L [I (pkey s o); I (pval s o); of_nat o]) (col s).
-Fixpoint run_pd (ops : list dop) (s : px) : list tree * px :=
+Fixpoint run_pd (ops : list dop2) (s : px) : list tree * px :=
   match ops with
   | [] => ([], s)
   | o :: r =>
-      let '(x, s') := pd_step s o in
+      let '(x, s') := match o with D1 o' => pd_step s o' | DAssign m => (DOk None, pd_assign s m) end in
       let '(out, sf) := run_pd r s' in
       (L [I (match x with DOk _ => 0 | DRaise e => rc_of_exn e | DAttrError => 21 end);
           match x with DOk (Some v) => I v | _ => L [] end;
@@ -170,14 +185,14 @@ Definition run_case (t : tree) : tree :=
       | _, _ => bad_input
       end
   | L [I 2; init; ops] =>
-      match as_items init, as_list_of as_psop ops with
+      match as_items init, as_list_of as_sop2 ops with
       | Some vs, Some os =>
           let '(out, sf) := run_ps os (fold_left ps_add vs px_empty) in
           L (out ++ [of_list of_Z (zsorted (to_list sf))])
       | _, _ => bad_input
       end
   | L [I 3; init; ops] =>
-      match as_pairs init, as_list_of as_dop ops with
+      match as_pairs init, as_list_of as_dop2 ops with
       | Some kvs, Some os =>
           let '(out, sf) := run_pd os (fold_left (fun acc kv => pd_setitem acc (fst kv) (snd kv)) kvs px_empty) in
           L (out ++ [of_list (fun kv => L [I (fst kv); I (snd kv)]) (sort_by pair_key (to_dict sf))])
